@@ -22,6 +22,7 @@ import (
 	"verif/props/c13"
 	"verif/props/c14"
 	"verif/props/c15"
+	"verif/props/c16"
 	"verif/props/c19"
 	"verif/props/c20"
 )
@@ -47,6 +48,7 @@ var props = map[string]prop{
 	"C13": {"model_checking", c13.Run},
 	"C14": {"model_checking", c14.Run},
 	"C15": {"exploration", c15.Run},
+	"C16": {"model_checking", c16.Run},
 	"C19": {"exploration", c19.Run},
 	"C20": {"exploration", c20.Run},
 }
